@@ -1,7 +1,84 @@
-(* C02 — placeholder while the proofs are being developed *)
+(* C02 — A rule matches exactly when the matcher expression is true of request and rule.
+   Text level: the repository's own pipeline (escape_assertion, remove_comments, the three rewrites of
+   _get_expression (repaired: " and " / " or " / " not "), SimpleEval's strip) maps EVERY admissible
+   spacing of a well-formed Casbin token list to the corresponding Python token list.
+   Only statements here; proofs are `exact <lemma>`. *)
 From Coq Require Import List NArith Bool.
-From PyCasbin Require Import Base Expr MatcherText.
+From PyCasbin Require Import Base Effect Expr MatcherText MatcherTextProofs.
 Import ListNotations.
-Example C02_placeholder : py_tokens (pipeline [114; 46; 97; 38; 38; 112; 46; 98]%N)
-  = Some [TId [114; 95; 97]%N; TKAnd; TId [112; 95; 98]%N].
+Local Open Scope N_scope.
+
+(* every well-formed Casbin token list x every admissible layout (blank runs possibly EMPTY, of any
+   length; no bound on the number of tokens) *)
+Theorem C02_pipeline_tokens : forall rs ps ts ws,
+  ts <> [] -> wf_tokens rs ps ts = true -> existsb eval_tok ts = false ->
+  admissible ts ws = true ->
+  py_tokens (pipeline (render ts ws)) = Some (flat_map tr ts).
+Proof. exact pipeline_tokens. Qed.
+Print Assumptions C02_pipeline_tokens.
+
+(* the same for the token list of an AST of the expression language *)
+Theorem C02_pipeline_tokens_ast : forall rs ps e ws,
+  forallb is_digit rs = true -> forallb is_digit ps = true ->
+  names_ok rs ps e = true -> has_eval_expr e = false -> admissible (tokens_of e) ws = true ->
+  py_tokens (pipeline (render (tokens_of e) ws)) = Some (flat_map tr (tokens_of e)).
+Proof. exact pipeline_tokens_ast. Qed.
+Print Assumptions C02_pipeline_tokens_ast.
+
+(* a trailing # comment (any text) changes nothing *)
+Theorem C02_comment_strip : forall rs ps ts ws c,
+  ts <> [] -> wf_tokens rs ps ts = true -> existsb eval_tok ts = false ->
+  admissible ts ws = true ->
+  py_tokens (pipeline (render ts ws ++ 35 :: c)) = Some (flat_map tr ts).
+Proof. exact comment_strip. Qed.
+Print Assumptions C02_comment_strip.
+
+(* escape_assertion rewrites r<sfx>.f / p<sfx>.f (and the argument of eval) and nothing else,
+   whatever the spacing; tokens containing eval() included *)
+Theorem C02_escape_only_rp : forall rs ps ts ws,
+  wf_tokens rs ps ts = true -> admissible ts ws = true ->
+  escape_assertion (render ts ws) = render (map esc_tok ts) ws.
+Proof. exact escape_only_rp. Qed.
+Print Assumptions C02_escape_only_rp.
+
+Theorem C02_escape_other_tokens_unchanged : forall t,
+  match t with TReq _ _ _ | TPol _ _ | TEval _ _ => False | _ => True end -> esc_tok t = t.
+Proof. exact esc_tok_other. Qed.
+Print Assumptions C02_escape_other_tokens_unchanged.
+
+(* Config: k backslash-continued lines + a last line = the stripped segments joined by ONE blank.
+   Partial: the guard excludes lines that are empty, comment-like or taken for a section header *)
+Theorem C02_continuation_join_partial : forall conts st last, c_can st = false ->
+  forallb (fun r => plain_line r && last_is 92 (strip r)) conts = true ->
+  plain_line last = true -> last_is 92 (strip last) = false ->
+  cfg_lines st (conts ++ [last])
+  = Ok (with_buf st (c_buf st ++ map seg_cont conts ++ [strip last]) true).
+Proof. exact continuation_join_partial. Qed.
+Print Assumptions C02_continuation_join_partial.
+
+(* ... and the guard is needed (known finding C02-continuation-bracket-line) *)
+Theorem C02_continuation_join_refuted :
+  exists conts last,
+    forallb (fun r => plain_line r && last_is 92 (strip r)) conts = true
+    /\ last_is 92 (strip last) = false /\ plain_line last = false
+    /\ cfg_lines {| c_sec := []; c_buf := []; c_can := false; c_data := [] |} (conts ++ [last])
+       <> Ok {| c_sec := []; c_buf := map seg_cont conts ++ [strip last]; c_can := true; c_data := [] |}.
+Proof. exact continuation_join_refuted. Qed.
+Print Assumptions C02_continuation_join_refuted.
+
+(* non-vacuity: r.sub==p.sub&&!(r.obj!=p.obj)||r.act in("read",'w')  with NO optional blank *)
+Definition ex_ts : list tok :=
+  [TReq [] [115; 117; 98] []; TCmp CEq; TPol [] [115; 117; 98]; TAnd; TNot; TLP; TReq [] [111; 98; 106] []; TCmp CNe; TPol [] [111; 98; 106]; TRP;
+   TOr; TReq [] [97; 99; 116] []; TIn; TLP; TStr true [114; 101; 97; 100]; TComma; TStr false [119]; TRP].
+Definition ex_ws : layout :=
+  [([], []); ([], []); ([], []); ([], []); ([], []); ([], []); ([], []); ([], []); ([], []); ([], []);
+   ([], []); ([], [32]); ([], []); ([], []); ([], []); ([], []); ([], []); ([], [])].
+Example C02_example_hypotheses :
+  wf_tokens [] [] ex_ts = true /\ admissible ex_ts ex_ws = true
+  /\ render ex_ts ex_ws = [114; 46; 115; 117; 98; 61; 61; 112; 46; 115; 117; 98; 38; 38; 33; 40; 114; 46; 111; 98; 106; 33; 61; 112; 46; 111; 98; 106; 41; 124; 124; 114; 46; 97; 99; 116; 32; 105; 110; 40; 34; 114; 101; 97; 100; 34; 44; 39; 119; 39; 41].
+Proof. vm_compute. repeat split; reflexivity. Qed.
+Example C02_example_tokens :
+  py_tokens (pipeline (render ex_ts ex_ws))
+  = Some [TId [114; 95; 115; 117; 98]; TCmp CEq; TId [112; 95; 115; 117; 98]; TKAnd; TKNot; TLP; TId [114; 95; 111; 98; 106]; TCmp CNe; TId [112; 95; 111; 98; 106]; TRP; TKOr;
+          TId [114; 95; 97; 99; 116]; TIn; TLP; TStr true [114; 101; 97; 100]; TComma; TStr false [119]; TRP].
 Proof. vm_compute. reflexivity. Qed.
